@@ -71,7 +71,32 @@ def run_k_property(prop, crate, specs, *, functions, files, assumptions, explana
                 log("  note: known finding %s no longer reproduces in harness %s" % (key, s["name"]))
             continue
         if r.status == "FAILED":
-            ok, rdir, detail = kani.replay(s.get("crate", crate), s["name"], prop, flags=list(flags) + list(s.get("flags", ())))
+            ok, rdir, detail = kani.replay(s.get("crate", crate), s["name"], prop, flags=list(flags) + list(s.get("flags", ())),
+                                           timeout=s.get("replay_timeout", 1800))
+            if ok is None and s.get("native_fallback"):
+                # Kani could not produce a concrete playback test in time: reproduce the scenario of the failed assertion with a
+                # native test of the real crate (fixed values; the violated clause does not depend on the values)
+                nf = s["native_fallback"]
+                import shutil, subprocess
+                from common import REPO, BUILD, REPLAYS, env_offline
+                shutil.copyfile(os.path.join(REPO, "Cargo.lock"), os.path.join(nf["dir"], "Cargo.lock"))
+                env = env_offline({"CARGO_TARGET_DIR": os.path.join(BUILD, "native")})
+                pr = subprocess.run(nf["cmd"], cwd=nf["dir"], env=env, capture_output=True, text=True, timeout=1800)
+                failed = "test result: FAILED" in pr.stdout
+                passed = pr.returncode == 0 and "test result: ok" in pr.stdout
+                if failed:
+                    rdir = os.path.join(REPLAYS, prop, s["name"] + "_native")
+                    os.makedirs(rdir, exist_ok=True)
+                    with open(os.path.join(rdir, "replay.sh"), "w") as f:
+                        f.write("#!/bin/bash\n# exit status != 0 iff the violation reproduces natively\ncd %s && CARGO_NET_OFFLINE=true CARGO_TARGET_DIR=%s %s\n"
+                                % (nf["dir"], os.path.join(BUILD, "native"), " ".join(nf["cmd"])))
+                    with open(os.path.join(rdir, "REPLAY.md"), "w") as f:
+                        f.write("Property %s, harness %s failed under CBMC (%s); Kani's concrete playback did not finish (%s).\n"
+                                "The same scenario is reproduced by the native test %s (fixed values) against the real crate: it fails.\nRun: bash %s/replay.sh\n"
+                                % (prop, s["name"], "; ".join(r.failed[:2]), detail, nf["what"], rdir))
+                    ok, detail = True, "native scenario test fails: " + nf["what"]
+                elif passed:
+                    ok, detail = False, "native scenario test passes (%s) although the harness failed" % nf["what"]
             d["replay"] = {"confirmed_natively": ok, "dir": rdir, "detail": detail}
             if ok is True:
                 what = "%s: %s [%s]" % (s["name"], "; ".join(r.failed[:3]), detail)
